@@ -34,28 +34,6 @@ example : ∃ ud u, Reach ud u ∧ u ≠ new ∧ u.b.len = 0 :=
   ⟨⟨fun _ => none, fun _ => 1⟩, shapeWithPlan ⟨fun _ => none, fun _ => 1⟩ (fun u => u) new,
     Reach.shape _ Reach.new, by decide, by decide⟩
 
-theorem eq_of_observe_eq {u v : UBuf} (h : observe u = observe v) :
-    u = { v with b := { v.b with flags := u.b.flags }, shapingFailed := u.shapingFailed } := by
-  obtain ⟨⟨i1, o1, x1, l1, ol1, ho1, so1, hp1, su1, le1, f1, sc1, ml1, mo1, se1⟩, d1, s1, la1, p1, q1, sf1, n1⟩ := u
-  obtain ⟨⟨i2, o2, x2, l2, ol2, ho2, so2, hp2, su2, le2, f2, sc2, ml2, mo2, se2⟩, d2, s2, la2, p2, q2, sf2, n2⟩ := v
-  simp only [observe, UBuf.mk.injEq, Buf.mk.injEq] at h
-  simp only [UBuf.mk.injEq, Buf.mk.injEq]
-  simp_all
-
-theorem applyReq_frame (r : Req) (v : UBuf) (f : Nat) (sf : Bool) :
-    applyReq r { v with b := { v.b with flags := f }, shapingFailed := sf } =
-      (applyReq r v).map (fun x => { x with shapingFailed := sf }) := by
-  unfold applyReq
-  simp only [bind, Except.bind]
-  rw [addAll_frame]
-  cases ha : addAll v r.text with
-  | error e => simp [Except.map]
-  | ok u1 =>
-    simp only [Except.map, pure, Except.pure]
-    congr 1
-    cases r.dir <;> cases r.script <;> cases r.lang <;> cases r.nfvs <;>
-      cases r.pre.isEmpty <;> cases r.post.isEmpty <;> rfl
-
 /-- **History independence.**  The same request (characters, clusters, contexts, direction, script, language,
     flags, cluster level, not-found glyph — what harness `fill` sets) shaped through a buffer recycled with
     `clear()` after ANY earlier use gives exactly the buffer that shaping it through a fresh one gives — for every
@@ -71,11 +49,6 @@ theorem C05_history_independent (ud : UData) (u : UBuf) (h : Reach ud u) (r : Re
 example : ∃ r : Req, ∃ x, applyReq r new = .ok x ∧ x.b.len = 2 :=
   ⟨{ text := [(0x61, 0), (0x62, 1)], flags := 3 }, _, rfl, by decide⟩
 
-theorem shapeWithPlan_guess (ud : UData) (body : UBuf → UBuf) (u : UBuf) :
-    shapeWithPlan ud body (guess ud u) = shapeWithPlan ud body u := by
-  unfold shapeWithPlan
-  rw [guess_idem]
-
 /-- **shape = shape_with_plan** with the plan built from the buffer's guessed direction, script and language
     (the content is that `guess_segment_properties` is idempotent: `shape_with_plan` guesses again). -/
 theorem C05_shape_eq_plan {Plan Feats : Type} (ud : UData)
@@ -85,6 +58,20 @@ theorem C05_shape_eq_plan {Plan Feats : Type} (ud : UData)
       shapeWithPlan ud (exec (mkPlan (guess ud u).dir (guess ud u).script (guess ud u).lang feats)) u := by
   unfold shape
   exact shapeWithPlan_guess ud _ u
+
+/-- history independence for `shape` itself: the plan is a function of the request's guessed properties, which
+    agree on the recycled and the fresh buffer -/
+theorem C05_history_independent_shape {Plan Feats : Type} (ud : UData) (u : UBuf) (h : Reach ud u) (r : Req)
+    (mkPlan : Nat → Option Nat → Option (List Nat) → Feats → Plan) (exec : Plan → UBuf → UBuf) (feats : Feats) :
+    (applyReq r (clear u)).map (shape ud mkPlan exec feats) = (applyReq r new).map (shape ud mkPlan exec feats) := by
+  have h1 := eq_of_observe_eq (C05_clear_fresh ud u h)
+  rw [h1, applyReq_frame]
+  cases applyReq r new with
+  | error e => rfl
+  | ok x =>
+    simp only [Except.map]
+    -- `guess` and `enter` never read `shapingFailed`, `enter` overwrites it: both sides reduce to the same term
+    congr 1
 
 /-- repeating a call on equal inputs gives equal outputs, and the second guess changes nothing -/
 theorem C05_guess_idempotent (ud : UData) (u : UBuf) : guess ud (guess ud u) = guess ud u := guess_idem ud u
@@ -138,6 +125,15 @@ theorem C05_shape_frame (ud : Life.UData) (pipeline : Sh → Life.UBuf → Life.
   intro sh g r b
   unfold shapeExec
   cases Life.applyReq r (Life.clear b) <;> rfl
+
+/-- concurrent shaping in the model: threads sharing (face, plan) data `sh`, each recycling its own buffer, end — under
+    every complete schedule — with the results of shaping their requests alone, one after the other -/
+theorem C05_threads_shape (ud : Life.UData) (pipeline : Sh → Life.UBuf → Life.UBuf) (sh : Sh)
+    (s : State G Life.UBuf Life.Req (M Life.UBuf)) (sched : List Nat) (hc : Complete s sched) (i : Nat)
+    (t : Thread Life.UBuf Life.Req (M Life.UBuf)) (h : s.threads[i]? = some t) :
+    ∃ t', (run (shapeExec ud pipeline) sh s sched).threads[i]? = some t' ∧ t'.todo = [] ∧
+      t'.done = t.done ++ runAlone (shapeExec ud pipeline) sh s.g t.buf t.todo :=
+  C05_schedule_independent _ (C05_shape_frame ud pipeline) sh s sched hc i t h
 
 /-! non-vacuity: two threads, two requests each, two different complete schedules; and the premise is needed —
     a call that bumps a shared counter gives schedule-dependent results -/
